@@ -310,6 +310,34 @@ def scan_determinism(ctx, n):
                 ctx.evaluations += 1
                 if (set(o[0]), set(o[-1])) != (set(base[0]), set(base[-1])):
                     ctx.violation(dict(nodes=nodes, edges=edges, exclusions=list(excl), permuted=list(perm)), "scan depends on the order of exclusion patterns", {"kind": "scan"})
+            # regex exclusions (and regex external exclusions are handled alike) whose patterns are not self-contained: an inline
+            # flag, a numbered back reference.  Every order must give the architecture in which a path is excluded exactly
+            # when ONE of the patterns matches it (re.match on the absolute path)
+            import re
+            lf = leaves[0].split(".")[-1]
+            rx_pool = ["(?i).*/" + re.escape(lf.upper()) + r"\.py$", ".*/" + re.escape(leaves[-1].split(".")[-1].upper()) + r"\.py$", r".*/(\w)\1\.py$", ".*/zz.*", r"(.*)/(\w+)/\2\.py$"]
+            rxs = tuple(rng.sample(rx_pool, 3))
+            outs = []
+            for perm in list(itertools.permutations(rxs))[:4]:
+                try:
+                    o = snapshot(get_evaluable_architecture(rp, rp, exclusions=(), regex_exclusions=perm))
+                    outs.append((perm, (frozenset(o[0]), frozenset(o[-1]))))
+                except Exception as e:  # noqa: BLE001
+                    outs.append((perm, ("ERR", type(e).__name__)))
+                ctx.evaluations += 1
+            paths_of = {x: str(d.joinpath(*x.split("."))) + ("" if x in inner else ".py") for x in nodes}
+            gone = {x for x in nodes if any(any(re.match(rx, paths_of[y]) for rx in rxs) for y in nodes if x == y or x.startswith(y + "."))}
+            documented = frozenset(x for x in nodes if x not in gone)
+            for perm, o in outs:
+                if o != outs[0][1]:
+                    ctx.violation(dict(nodes=nodes, edges=edges, regex_exclusions=list(outs[0][0]), permuted=list(perm), first=str(outs[0][1])[:300], permuted_result=str(o)[:300]),
+                                  "scan depends on the order of the regex exclusion patterns", {"kind": "scan"})
+                    break
+                if o[0] == "ERR" or o[0] != documented:
+                    ctx.violation(dict(nodes=nodes, edges=edges, regex_exclusions=list(perm), result=str(o)[:300], documented_modules=sorted(documented)),
+                                  "regex exclusion patterns are not applied one by one (each on its own) to the paths", {"kind": "scan"})
+                    break
+            ctx.stat("regex_exclusion_orders", len(outs))
             orig = pathlib.Path.iterdir
             for s in range(3):
                 srng = random.Random(s)
@@ -339,9 +367,9 @@ def scan_history(ctx, n):
     for it in range(n):
         rng = ctx.rng
         root, dirs, files = scan.gen_tree(rng, max_depth=4, root="proj")
-        scan.gen_imports(rng, dirs, files, nested=False)
+        scan.gen_imports(rng, dirs, files, nested=True)
         files_b = {f: {"py": v["py"], "body": []} for f, v in files.items()}
-        scan.gen_imports(rng, dirs, files_b, nested=False)
+        scan.gen_imports(rng, dirs, files_b, nested=True)
         base_a = scan.materialise(dirs, files)
         base_b = scan.materialise(dirs, files_b)
         try:
